@@ -152,21 +152,27 @@ class StructParam(Parameter):
         super().finish(modobj)
         if modobj:
 
-            if self.hasStructRW:
-                def cb(value, modobj=modobj, structparam=self):
+            # both directions are needed in both layouts: an update of the struct goes to
+            # the members and an update of a member goes to the struct. insideRW avoids
+            # that the update triggered by a callback is sent back again
+            def struct_cb(value, modobj=modobj, structparam=self):
+                structparam.insideRW += 1
+                try:
                     for membername, param in structparam.paramdict.items():
                         setattr(modobj, param.name, value[membername])
+                finally:
+                    structparam.insideRW -= 1
 
-                modobj.addCallback(self.name, cb)
-            else:
-                for membername, param in self.paramdict.items():
-                    def cb(value, modobj=modobj, structparam=self, membername=membername):
-                        if not structparam.insideRW:
-                            prev = dict(getattr(modobj, structparam.name))
-                            prev[membername] = value
-                            setattr(modobj, structparam.name, prev)
+            modobj.addCallback(self.name, struct_cb)
 
-                    modobj.addCallback(param.name, cb)
+            for membername, param in self.paramdict.items():
+                def cb(value, modobj=modobj, structparam=self, membername=membername):
+                    if not structparam.insideRW:
+                        prev = dict(getattr(modobj, structparam.name))
+                        prev[membername] = value
+                        setattr(modobj, structparam.name, prev)
+
+                modobj.addCallback(param.name, cb)
 
 
 class FloatEnumParam(Parameter):
